@@ -443,10 +443,15 @@ func (k *c09) fieldType(key string) types.Type {
 	return nil
 }
 
-func c09Resolve(c *Ctx) *c09 {
-	k := &c09{c: c, r: c.R, p: c.P, rel: "events/ratelimiting"}
-	p := k.p
-	k.pkgPath = p.ModPath + "/" + k.rel
+func c09Resolve(c *Ctx) *c09 { return c09ResolveIn(c, c.P, c.R, nil, "events/ratelimiting") }
+
+// c09ResolveIn resolves the roles in package rel of program p (the repo, or a fixture with the same exported anchors).
+func c09ResolveIn(c *Ctx, p *Prog, r *Report, e *LockEngine, rel string) *c09 {
+	k := &c09{c: c, r: r, p: p, rel: rel, e: e}
+	k.pkgPath = p.ModPath
+	if k.rel != "" {
+		k.pkgPath += "/" + k.rel
+	}
 	k.ctor = p.Func(k.rel, "NewCoalescing")
 	iface, _ := p.Named(k.rel, "RateLimiter").Underlying().(*types.Interface)
 	if iface == nil {
@@ -607,7 +612,9 @@ func c09Resolve(c *Ctx) *c09 {
 	}
 	k.fc = &PFactCtx{InPkg: k.follow}
 	k.rc = &PRootCtx{Fns: k.fns, InPkg: k.follow}
-	k.e = c.Locks()
+	if k.e == nil {
+		k.e = c.Locks()
+	}
 	k.resolveFields()
 	return k
 }
